@@ -1,6 +1,6 @@
 (* C07  No look-ahead: the past never depends on future market data (partial: daily accessors are modelled; minute bars and
    attribute access outside the modelled accessors are explored by the two-world runs only). *)
-From RQ Require Import Model.Num Model.Calendar Model.View Proofs.NumFacts Proofs.CalendarFacts Proofs.ViewFacts.
+From RQ Require Import Model.Num Model.Calendar Model.View Model.Phases Proofs.NumFacts Proofs.CalendarFacts Proofs.ViewFacts Proofs.PhasesFacts Gen.ApiPhases.
 Open Scope Z_scope.
 
 (* two market histories that agree up to the moment (day d, phase ph) give the same answer from every accessor *)
@@ -49,6 +49,17 @@ Proof.
   repeat split; try reflexivity; repeat constructor.
 Qed.
 
+(* a handler registered with subscribe_event reads the market through the same phase-dependent accessors as the strategy's own callbacks:
+   the handler of BEFORE_TRADING / OPEN_AUCTION events (and of their PRE_ / POST_ brackets) runs in that phase - never in GLOBAL, where the
+   accessors show the whole bar of the day - and a handler of an order / trade event keeps the phase in which the event was raised
+   (regenerated from Strategy._EVENT_PHASE / wrap_user_event_handler and Executor.EVENT_SPLIT_MAP) *)
+Theorem C07_event_handlers_read_through_the_phase :
+  (forall e p parts part enclosing, In (e, p) day_phase_events -> lookup e event_split = Some parts -> In part parts ->
+     handler_phase handler_phase_table handler_fallback_enclosing part enclosing = p) /\
+  (forall ev enclosing, lookup ev handler_phase_table = None ->
+     handler_phase handler_phase_table handler_fallback_enclosing ev enclosing = enclosing).
+Proof. exact (handler_phase_sound event_split handler_phase_table handler_fallback_enclosing handler_phases_ok). Qed.
+
 Print Assumptions C07_price_board.
 Print Assumptions C07_bar_dict_and_matcher_bar.
 Print Assumptions C07_snapshot.
@@ -58,3 +69,4 @@ Print Assumptions C07_auction_independent.
 Print Assumptions C07_history_ends_yesterday.
 Print Assumptions C07_history.
 Print Assumptions C07_run.
+Print Assumptions C07_event_handlers_read_through_the_phase.
